@@ -143,6 +143,64 @@ class SwapLettersOneWay(DisjointUnionStrategy[AvoidingWithPrefix, Word]):
         return cls()
 
 
+class RemoveFrontLetterwise(RemoveFrontOfPrefix):
+    """RemoveFrontOfPrefix with ONE FACTOR PER REMOVED LETTER: a product of k atoms and the
+    remaining class (k + 1 >= 3 children as soon as two letters can be removed), the non-atom
+    child placed last (rest_pos 0), first (1) or in the middle (2).  Exercises bounded
+    compositions with three and more parts, atoms after a non-atom, and reverse rules of such
+    products."""
+
+    def __init__(self, rest_pos: int = 0):
+        super().__init__()
+        self.rest_pos = rest_pos
+
+    def _where(self, k):
+        return {0: k, 1: 0}.get(self.rest_pos, k // 2)
+
+    def decomposition_function(self, c):
+        pair = super().decomposition_function(c)
+        if pair is None:
+            return None
+        start, end = pair
+        atoms = [AvoidingWithPrefix(ch, c.patterns, c.alphabet, True) for ch in start.prefix]
+        w = self._where(len(atoms))
+        return tuple(atoms[:w] + [end] + atoms[w:])
+
+    def formal_step(self):
+        return "removing redundant prefix letter by letter (rest at %d)" % self.rest_pos
+
+    def backward_map(self, comb_class, words, children=None):
+        if children is None:
+            children = self.decomposition_function(comb_class)
+        k = len(children) - 1
+        w = self._where(k)
+        letters = [x for i, x in enumerate(words) if i != w]
+        yield Word("".join(letters) + words[w])
+
+    def forward_map(self, comb_class, word, children=None):
+        if children is None:
+            children = self.decomposition_function(comb_class)
+        k = len(children) - 1
+        w = self._where(k)
+        letters = [Word(ch) for ch in word[:k]]
+        return tuple(letters[:w] + [Word(word[k:])] + letters[w:])
+
+    def to_jsonable(self):
+        d = super().to_jsonable()
+        d["rest_pos"] = self.rest_pos
+        return d
+
+    @classmethod
+    def from_dict(cls, d):
+        return cls(d.get("rest_pos", 0))
+
+    def __repr__(self):
+        return "RemoveFrontLetterwise(%d)" % self.rest_pos
+
+    def __str__(self):
+        return self.formal_step()
+
+
 class WordFactory(StrategyFactory[AvoidingWithPrefix]):
     """Yields a strategy, a ready rule, and (mode 2) the expansion rule of the
     class whose prefix is one letter shorter (a rule with another parent)."""
@@ -232,6 +290,13 @@ PACKS = {
                                    [AtomStrategy()], name="oneway"),
     "iterative": lambda: StrategyPack([RemoveFrontOfPrefix()], [], [[ExpansionStrategy()]], [AtomStrategy()],
                                       name="iterative", iterative=True),
+    # products with three and more factors (seed C01a needed them to manifest)
+    "letterwise": lambda: StrategyPack([RemoveFrontLetterwise(0)], [], [[ExpansionStrategy()]], [AtomStrategy()],
+                                       name="letterwise"),
+    "letterwise_first": lambda: StrategyPack([RemoveFrontLetterwise(1)], [], [[ExpansionStrategy()]],
+                                             [AtomStrategy()], name="letterwise_first"),
+    "letterwise_mid": lambda: StrategyPack([RemoveFrontLetterwise(2)], [], [[ExpansionStrategy()]],
+                                           [AtomStrategy()], name="letterwise_mid"),
 }
 
 START_SPECS = [
@@ -255,6 +320,12 @@ START_SPECS = [
     ("", ["aab", "bba"], "ab"),    # swap-invariant
     ("aa", ["aa"], "ab"),          # EMPTY start class
     ("ba", ["aab", "ab", "ba"], "ab"),   # EMPTY start class
+    # long prefixes: several letters are removed at once (products with >= 3 factors under the
+    # letterwise packs)
+    ("bbba", ["aa"], "ab"),
+    ("abab", ["bb"], "ab"),
+    ("cabc", ["aa", "cb"], "abc"),
+    ("bab", ["aab"], "ab"),
 ]
 
 
